@@ -80,7 +80,7 @@ class C01(Prop):
         "onProtected_registrationComplete", "C01_step_registration_complete", "onRegistrationRequest_ok",
         "C01_step_registration_request", "onProtected_securityModeComplete", "C01_step_security_mode_complete",
         "run_clean_step", "C01_registration_script_accepted", "C01_subscriber_identified", "secCapVal_shape",
-        "registrationRequest_short", "C01_registration_accepted_for_config", "vector_resStar_length", "C01_keys_in_step", "C01_accepted_partial", "C01_accepted_for_downlink",
+        "registrationRequest_short", "C01_registration_accepted_for_config", "vector_resStar_length", "C01_keys_in_step", "C01_accepted_partial", "C01_accepted_for_downlink", "C01_keys_of_network_challenge",
         "C01_accepted_witness",
     ]] + ["Stgutg.Proofs.Emulator." + t for t in ["protected_step", "receiveUl_of_receive", "amf_sees_built_pdu", "patchSchema_eq"]] + [
         "Stgutg.Proofs.BuildersPath." + t for t in ["inRange_ngSetupRequest", "inRange_initialUEMessage",
@@ -90,7 +90,8 @@ class C01(Prop):
                                                      "ngSetupRequest_wire", "initialUEMessage_wire", "uplinkNasTransport_wire",
                                                      "initialContextSetupResponse_wire", "parse_header"]] + [
         "Stgutg.Proofs.EmulatorSubscriber." + t for t in ["subscriberOf_eq", "suci_of_created_ue_short", "parse_length"]] + [
-        "Stgutg.Proofs.EmulatorRun." + t for t in ["manageNGSetup_run", "protect_ok", "registerUE_run", "emulate_run"]]
+        "Stgutg.Proofs.EmulatorRun." + t for t in ["manageNGSetup_run", "protect_ok", "registerUE_run", "emulate_run"]] + [
+        "Stgutg.Proofs.EmulatorReencode.reenc_smc", "Stgutg.Proofs.EmulatorReencode.reenc_rc"]
     domains = [Domain("convo-reg", 14, 80, tags="verif")]
     rule = ("convo-reg: whole NG Setup + registration conversations of the emulator in test mode against the scripted AMF of "
             "harness/peer (real NGAP/NAS built with free5gclib) over a SOCK_SEQPACKET socketpair: (proc) the procedures of package "
@@ -137,11 +138,11 @@ class C01(Prop):
                     "C01_accepted_partial (the former with every uplink-side hypothesis discharged): the statement "
                     "THROUGH emulate for one registration - Proofs/EmulatorRun.lean executes the emulator model symbolically "
                     "(manageNGSetup_run, registerUE_run, emulate_run: it writes exactly these six messages and completes) and "
-                    "judge (emulate cfg dls).uls = accept follows, with the DOWNLINK side as hypotheses (RegReads): the five "
+                    "judge (emulate cfg dls).uls = accept follows, with the DOWNLINK side as hypotheses (DlReads): the five "
                     "downlink messages are decodable, the first DOWNLINK NAS TRANSPORT carries the chosen AMF-UE-NGAP-ID and an "
                     "Authentication Request from whose AUTN/RAND DeriveRESstarAndSetKey obtains the vector's RES* and keys "
-                    "(C01_res_star proves that for the network's AUTN/RAND), PlainNasDecode/PlainNasEncode reproduce the two "
-                    "protected constructor outputs (C08). NOT proved, so C01_accepted_statement (judge (emulate cfg (dl cfg "
+                    "(C01_keys_of_network_challenge: proved from C01_res_star when the AUTN/RAND read are the network's); the PlainNasDecode/PlainNasEncode re-encoding inside "
+                    "EncodeNasPduWithSecurity is proved to reproduce the two constructor outputs (reenc_smc, reenc_rc: C08). NOT proved, so C01_accepted_statement (judge (emulate cfg (dl cfg "
                     "choices)) = accept for a specified downlink function dl) stays open: (a) a specification dl of the AMF's "
                     "downlink octets with these properties proved; (b) more than one UE. The executable reference AMF judges "
                     "every real transcript of the correspondence run; C01_accepted_witness evaluates one conversation in the kernel. "
